@@ -68,7 +68,7 @@ CLAIMS = {
         "technique": "lock-held must-analysis over CFG + call graph; LLVM IR writable-global audit; const_cast lint",
     },
     "C12": {
-        "text": "Decides table/database agreement: RW/flag/feature/rm tables regenerate byte-identically from db/; AArch64 mnemonics with register-run forms carry the consecutive flag (known finding: tbl/tbx); x86 forms with relative register operands report the run's lead count and follower flags. Does not decide what the CPU does nor register-or-memory agreement.",
+        "text": "Decides table/database agreement: RW/flag/feature/rm tables regenerate byte-identically from db/; AArch64 mnemonics with register-run forms carry the consecutive flag (known finding: tbl/tbx); x86 forms with relative register operands report the run's lead count and follower flags; every operand the x86 rm table flags as replaceable by memory has, for each all-register database form, a memory form of the prescribed size (1162 operand obligations; 31 known findings because the information is kept per instruction id). Does not decide what the CPU reads, writes or requires.",
         "design_ref": "DESIGN.md section 3 / C12",
         "note": _TB + " db/*.js readers and tools/tablegen*.js are run under node as the repository's own generator.",
         "technique": "generated-table regeneration diff; table-vs-database agreement",
